@@ -13,8 +13,8 @@ position 0 when `save` is entered (a file opened by name; callers that pass a fi
 rewind it: `parse_size` reads the 30 header bytes at the current position).
 
 Objects nest in the Header Object and in the Header Extension Object only; a Header Extension
-Object inside a Header Extension Object is outside the model (`.notImplemented`), and so is a
-Header Object inside the header (`HeaderObject.parse` raises Python's NotImplementedError there).
+Object inside a Header Extension Object is outside the model (`.notImplemented`).  A Header Object
+inside the header or the Header Extension is an ASFHeaderError ("nested header object").
 
 Spec side (ASF specification §2–§4: an object is a 16-byte GUID, a 64-bit little-endian size that
 includes the 24 header bytes, and the payload; the Header Object carries the number of its child
@@ -390,9 +390,9 @@ def rawOK (guid data : Bytes) : Bool :=
 
 /-- `BaseObject._get_object(guid)` and `obj.parse(asf, data)` for everything but the Header
 Extension Object.  Errors: the module's `error` (what `parse_full` makes of struct.error and
-UnicodeDecodeError, and ASFError); a Header Object here raises NotImplementedError. -/
+UnicodeDecodeError, and ASFError); a Header Object here is an ASFHeaderError too ("nested header object"). -/
 def leafOf (guid data : Bytes) : Except PyErr Leaf :=
-  if guid = gHeader then .error .notImplemented
+  if guid = gHeader then .error .mutagen                 -- HeaderObject.parse: ASFHeaderError("nested header object")
   else if guid = gCD then (if (parseCD data).isSome then .ok (.cd data) else .error .mutagen)
   else if guid = gECD then (if (parseECD data).isSome then .ok (.ecd data) else .error .mutagen)
   else if guid = gMeta then (if (parseML false data).isSome then .ok (.mo data) else .error .mutagen)
@@ -555,8 +555,14 @@ def padObject (p : Nat) : Bytes := object gPadding (zeros p)
 def headerBytes (n : Nat) (body : Bytes) : Bytes :=
   gHeader ++ toLE 8 (body.length + 30) ++ toLE 4 n ++ [1, 2] ++ body
 
+/-- is this the object whose File Size field `render_full` keeps up to date? -/
+def Obj.isFileProps (o : Obj) : Bool := o.guid == gFileProps
+
 /-- HeaderObject.render_full(asf, fileobj, available, padding_func) on a file of `fileLen` bytes.
-A negative answer of the callback gives no padding (`b"\x00" * padding`). -/
+A negative answer of the callback gives no padding (`b"\x00" * padding`).  When one of the rendered
+children is a File Properties Object, bytes 16..24 of the payload of the first one (File Size) are
+overwritten, in the assembled header, with the size of the whole file after the save
+(`len(header) + content_size`; `struct.pack("<Q")` rejects what does not fit). -/
 def renderFull (d : Dist) (objs : List Obj) (fileLen available : Nat) (pad : PadChoice) : Except PyErr Bytes :=
   let kept := objs.filter fun o => !o.isPad
   match concatMapE (renderObj d) kept with
@@ -566,7 +572,15 @@ def renderFull (d : Dist) (objs : List Obj) (fileLen available : Nat) (pad : Pad
     if fileLen < available then .error .mutagen      -- "truncated content"
     else
       let p := (getPadding pad ((available : Int) - needed) (fileLen - available)).toNat
-      .ok (headerBytes (kept.length + 1) (data ++ padObject p))
+      let header := headerBytes (kept.length + 1) (data ++ padObject p)
+      if kept.any Obj.isFileProps then
+        -- `file_props_offset = len(data)` when the first File Properties Object is met
+        match concatMapE (renderObj d) (kept.takeWhile fun o => !o.isFileProps) with
+        | .error e => .error e
+        | .ok pre =>
+          let total := header.length + (fileLen - available)
+          if total < 2 ^ 64 then .ok (writeAt header (30 + pre.length + 24 + 16) (toLE 8 total)) else .error .struct_
+      else .ok header
 
 /-- `ASF.save` through an object whose `_header.objects` is `objs`: the new file and the tree the
 object holds afterwards -/
